@@ -34,11 +34,11 @@ ASSUMPTIONS = [
     "the loaded-table set at each edit is a legitimate input and is held equal in the reference replica",
     "optional native dependencies present in /venv are used as installed; their presence is not varied here",
 ]
-EXPECTED_PROBES = ["save.checked", "op.savexml", "op.failsave.compile", "op.failsave.dest", "lazy.True", "lazy.None", "lazy.False", "edit.reorder", "edit.subset", "edit.scale", "edit.instantiate"]
+EXPECTED_PROBES = ["order.pairs", "save.checked", "op.savexml", "op.failsave.compile", "op.failsave.dest", "lazy.True", "lazy.None", "lazy.False", "edit.reorder", "edit.subset", "edit.scale", "edit.instantiate"]
 
 TIERS = {
-    "quick": {"budget_s": 170, "determinism_sample": 16, "n": {"hist": 2700, "hist_fail": 1000, "hist_ensure": 700, "second_save": 900, "clock": 400, "hashseed": 0}, "minimise_s": 60, "max_minimise": 3},
-    "thorough": {"budget_s": 1500, "determinism_sample": 200, "n": {"hist": 16000, "hist_fail": 5000, "hist_ensure": 4000, "second_save": 1400, "clock": 1500, "hashseed": 0}, "minimise_s": 180, "max_minimise": 6},
+    "quick": {"budget_s": 170, "determinism_sample": 16, "n": {"hist": 2700, "hist_fail": 1000, "hist_ensure": 700, "second_save": 900, "clock": 400, "order": 32, "hashseed": 0}, "minimise_s": 60, "max_minimise": 3},
+    "thorough": {"budget_s": 1500, "determinism_sample": 200, "n": {"hist": 16000, "hist_fail": 5000, "hist_ensure": 4000, "second_save": 1400, "clock": 1500, "order": 400, "hashseed": 0}, "minimise_s": 180, "max_minimise": 6},
 }
 
 OBSERVE_OPS = ["touch", "contains", "keys", "glyphorder", "glyphset", "bestcmap", "tabledata", "save", "savexml", "deepcopy", "revmap", "ensure_table"]
@@ -87,6 +87,7 @@ def batches(ctx):
         {"name": "hist_fail", "n": n["hist_fail"], "fault_free": False},
         {"name": "second_save", "n": n["second_save"], "fault_free": True},
         {"name": "clock", "n": n["clock"], "fault_free": True},
+        {"name": "order", "n": n.get("order", 0), "fault_free": True},
     ]
 
 
@@ -220,6 +221,14 @@ def generate(ctx, batch, idx):
             "xml": r.random() < 0.5,
             "ops": [],
         }
+    if batch == "order":
+        # process-history independence: a target run alone in a fresh interpreter vs after a prefix of other runs
+        pre = []
+        for _ in range(r.randint(8, 40)):
+            b = r.choice(["hist", "hist", "hist_fail", "hist_ensure", "second_save", "clock"])
+            pre.append([b, r.randrange(2000)])
+        tb = r.choice(["hist", "second_save", "second_save", "hist_ensure"])
+        return {"kind": "order", "target": [tb, r.randrange(2000)], "ops": pre, "font": key}
     if batch == "clock":
         return {
             "kind": "clock",
@@ -728,6 +737,8 @@ def execute(ctx, h):
         if src is None:
             return {"events": ["ineligible"], "nontrivial": False}
         kind = h.get("kind", "hist")
+        if kind == "order":
+            return exec_order(ctx, h)
         if kind == "hist":
             return exec_hist(ctx, h, src, scratch)
         if kind == "second_save":
@@ -738,6 +749,45 @@ def execute(ctx, h):
     finally:
         scratch.close()
         logging.disable(lvl)
+
+
+def exec_order(ctx, h):
+    """Run the target alone, and after the prefix, each in a fresh interpreter; digests must agree."""
+    import json
+    import subprocess
+    import sys
+    from sim import VERIF
+
+    def fresh(keys):
+        spec = ",".join("%s:%d" % (b, i) for b, i in keys)
+        env = dict(os.environ, PYTHONHASHSEED="0")
+        cmd = [sys.executable, os.path.join(VERIF, "check"), ID, "--run-many", spec, "--seed", str(ctx.seed), "--tier", ctx.tier]
+        cp = subprocess.run(cmd, capture_output=True, text=True, env=env, timeout=RUN_TIMEOUT_S - 20)
+        out = {}
+        for ln in cp.stdout.splitlines():
+            if ln.startswith("{"):
+                d = json.loads(ln)
+                out[tuple(d["key"])] = d.get("digest")
+        return out, cp
+
+    t = tuple(h["target"])
+    alone, cp1 = fresh([t])
+    after, cp2 = fresh([tuple(k) for k in h["ops"]] + [t])
+    res = {"events": [alone.get(t), after.get(t)], "probes": {"order.pairs": 1}, "states": [], "known": [], "nontrivial": True}
+    if t not in alone or t not in after:
+        if alone.get(t, 0) is None or after.get(t, 0) is None or (t in alone) != (t in after):
+            pass
+        # the target was skipped by the generator (ineligible font) or a child failed: inconclusive, not a violation
+        res["probes"]["order.inconclusive"] = 1
+        res["nontrivial"] = False
+        return res
+    if alone[t] != after[t]:
+        res["violation"] = {
+            "class": "result-depends-on-process-history",
+            "detail": "run %s:%d gives digest %s alone in a fresh interpreter but %s after %d other runs in the same process (prefix in the replay file)" % (t[0], t[1], str(alone[t])[:12], str(after[t])[:12], len(h["ops"])),
+            "sig": {},
+        }
+    return res
 
 
 def exec_hist(ctx, h, src, scratch):
